@@ -742,6 +742,8 @@ class Forest:
         if f == F["exprloc"]:
             b = a.val[0]
             return uleb(len(b)) + b
+        if f in (F["GNU_str_index"], F["GNU_addr_index"]):
+            return uleb(a.val)          # vendor forms with a code above 0xff (split DWARF): an index
         raise ValueError("form %#x not supported" % f)
 
     def loclists(self):
@@ -830,7 +832,7 @@ class Forest:
             return {"raw": a.val, "size": _FIXED[f], "signed": _sext(a.val, _FIXED[f])}
         if f == F["sdata"]:
             return {"raw": a.val & M64, "size": len(sleb(a.val)), "signed": a.val}
-        if f in (F["udata"], F["flag"], F["addr"], F["sec_offset"]):
+        if f in (F["udata"], F["flag"], F["addr"], F["sec_offset"], F["GNU_str_index"], F["GNU_addr_index"]):
             return a.val
         if f == F["flag_present"]:
             return True
@@ -994,7 +996,7 @@ _DEFAULTS = dict(min_units=1, max_units=4, max_depth=4, max_dies=40, versions=(2
                  partial_units=True, refs=True, share_abbrev=0.5, sibling=0.35, strp=0.5,
                  lone_null=0.15, odd_codes=0.3, cross_unit_chains=False, max_chain=4,
                  llvm_safe=True, v4_block_locations=False, extras=0.3, refused=0.0, cu_imports=0.0, dup_attrs=0.0, implicit_consts=0.0, const_blocks=0.0, empty_ranges=0.0,
-                 rich_ops=0.0, loclists=0.0, type_units=0.0, mixed_enums=0.0,
+                 rich_ops=0.0, loclists=0.0, type_units=0.0, mixed_enums=0.0, vendor_forms=0.0,
                  const_forms=("data1", "data2", "data4", "data8", "sdata", "udata"))
 
 _WORDS = ["foo", "bar", "baz", "qux", "main", "x", "y", "i", "T", "value", "next", "node",
@@ -1566,6 +1568,12 @@ class ForestGen:
             # a vendor attribute in the user range: read as unsigned
             d.add(0x2005 if self._chance(0.5) else 0x200b, r.choice(["data1", "data2", "data4", "udata", "sdata"]),
                   r.choice([0, 1, 0x7f, 0x80, 0xff]) if True else 0)
+        if self._chance(self.opts["vendor_forms"]):
+            # forms whose code does not fit a byte (0x1f01, 0x1f02): stored as a two-byte ULEB128 in the abbreviation
+            if self._chance(0.5):
+                d.add(0x2130, "GNU_str_index", r.choice([0, 1, 127, 128, 300]))      # DW_AT_GNU_dwo_name
+            else:
+                d.add(0x2f01, "GNU_addr_index", r.choice([0, 1, 127, 128, 300]))
         if self._chance(self.opts["refused"]):
             d.add(r.choice(["string_length", "discr_value", "discr_list"]) if tn != "member" else "discr_value",
                   r.choice(["data1", "data2", "data4"]), r.choice([0, 1, 0x80, 0xff]))
